@@ -158,6 +158,20 @@ def walks_for_shape(arg):
         sampling = (0.5, 0.4)
         kern = {k: pm._compute_propagator_arrays(sampling, 2, np.array([k * dz]))[0].to(torch.complex128)
                 for k in (1, -1, 2)}
+        # tilted kernels ("Q" steps): the model's Tilt = (1, -2) quarter pixels of sideways drift per unit distance,
+        # i.e. dz * tan(theta) / sampling = Tilt / 4; all three come from ONE stack of unequal thicknesses
+        tilt_q = (1, -2)
+        pm.probe_tilt = tuple(float(np.arctan(t * sp / (4.0 * dz)) * 1e3) for t, sp in zip(tilt_q, sampling))
+        order = [(2, 1, -1), (-1, 2, 1), (1, -1, 2)][idx % 3]
+        stack = pm._compute_propagator_arrays(sampling, 4, np.array([k * dz for k in order])).to(torch.complex128)
+        kern_q = {k: stack[i] for i, k in enumerate(order)}
+        for k in order:
+            alone = pm._compute_propagator_arrays(sampling, 2, np.array([k * dz]))[0].to(torch.complex128)
+            if float((alone - kern_q[k]).abs().max()) > 1e-5:
+                out.append(("C16:kernel-depends-on-stack-position",
+                            f"{tag}: tilted propagator for thickness {k}*dz differs by {float((alone - kern_q[k]).abs().max()):.3g} "
+                            f"between a stack {order} and a single-slice call"))
+        pm.probe_tilt = (0.0, 0.0)
 
         def propagate(arr, kernel):
             # PtychographyBase._propagate_array: Fourier convolution with the library's kernel
@@ -172,6 +186,8 @@ def walks_for_shape(arg):
                     psi = fourier_shift_expand(psi, v, expand_dim=False)
                     if psi.shape != psi0.shape:
                         psi = psi.reshape(psi0.shape)
+                elif st[0] == "Q":
+                    psi = propagate(psi, kern_q[st[1]])
                 else:
                     psi = propagate(psi, kern[st[1]])
             e = float((psi.abs() ** 2).sum())
